@@ -257,18 +257,16 @@ Definition cinv (st : vstate) : Prop :=
   Forall (fun s => s_id s < next st) (subs st) /\
   (fixed st = true -> Forall (fun s => s_live s = true /\ In (s_d s) (dc st) /\ In (s_g s) (groups st)) (subs st)).
 
-Definition wanted (sb : list sub) (given : list Z) (l : layer) : Prop :=
-  match l with
-  | LData d => In d given
-  | LSub s d g => In d given /\ exists lv, In (mkSub s d g lv) sb
-  end.
-
+(* the viewer relative to the collection and to `given` (the datasets handed over with add_data and not taken away since):
+   - the dataset layers are exactly the given datasets, all of them in the collection;
+   - every subset layer is a current subset (a member of data.subsets) of a dataset that is in the collection:
+     nothing remains for removed datasets, subsets or groups, also for subsets that were handed over alone;
+   - every current subset of a given dataset has its layer *)
 Definition vinv (st : vstate) (given : list Z) : Prop :=
   vsync st /\ NoDup given /\ (forall d, In d given -> In d (dc st)) /\
-  (forall l, In l (arts st) <-> wanted (subs st) given l).
-
-Lemma vinv_data : forall st given d, vinv st given -> (In (LData d) (arts st) <-> In d given).
-Proof. intros st given d (_ & _ & _ & H). apply (H (LData d)). Qed.
+  (forall d, In (LData d) (arts st) <-> In d given) /\
+  (forall s d g, In (LSub s d g) (arts st) -> In d (dc st) /\ exists lv, In (mkSub s d g lv) (subs st)) /\
+  (forall x, In x (subs st) -> In (s_d x) given -> In (lay x) (arts st)).
 
 Lemma lay_eq : forall x s d g, lay x = LSub s d g <-> exists lv, x = mkSub s d g lv.
 Proof.
@@ -294,7 +292,7 @@ Ltac same_coll_rw H :=
 Lemma step_cinv : forall o st, vsync st -> cinv st -> cinv (fst (step o st)).
 Proof.
   intros o st Hv (Hdc & Hgr & Hids & Hlt & Hfx).
-  destruct o as [d | d | g | g | d | d | s d g |]; simpl.
+  destruct o as [d | d | g | g | d | d | s d g | | d]; simpl.
   - (* Append *)
     destruct (zmem d (dc st)) eqn:Ed; simpl; [unfold cinv; tauto |].
     apply zmem_false in Ed.
@@ -385,7 +383,7 @@ Proof.
     destruct (remove_data_spec d st Hv) as [_ [_ Hsc]].
     apply (cinv_same_coll st); [exact Hsc | unfold cinv; tauto].
   - (* AddSubset *)
-    destruct (has (LData d) (arts st) && sub_known (subs st) s d g); simpl; [| unfold cinv; tauto].
+    destruct (zmem d (dc st) && sub_known (subs st) s d g); simpl; [| unfold cinv; tauto].
     destruct (add_subset_layer_spec (LSub s d g) st Hv) as [_ [Hsc _]].
     apply (cinv_same_coll st); [exact Hsc | unfold cinv; tauto].
   - (* SaveRestore *)
@@ -394,4 +392,7 @@ Proof.
     + apply Forall_forall. intros x Hx. apply filter_In in Hx. rewrite Forall_forall in Hlt. apply Hlt. tauto.
     + intros Hf. specialize (Hfx Hf). rewrite Forall_forall in Hfx. apply Forall_forall. intros x Hx.
       apply filter_In in Hx. apply Hfx. tauto.
+  - (* RemoveLayer *)
+    destruct (remove_subset_spec (LData d) st Hv) as [_ [_ Hsc]].
+    apply (cinv_same_coll st); [exact Hsc | unfold cinv; tauto].
 Qed.
